@@ -326,7 +326,8 @@ ScopeOutC(m1, m)     == [m1 EXCEPT !.rid = m.rid]
 ---------------------------------------------------------------------------
 (* Transition history (control_1.inl)                                      *)
 
-Pin(m, s, i) == IF i # 0 /\ ~IsActive(m, s) THEN [m EXCEPT !.tt[s] = i] ELSE m
+\* (a transition replayed beyond the capacity of the history is applied but not recorded: nothing to point at)
+Pin(m, s, i) == IF i # 0 /\ i <= HistCapacity /\ ~IsActive(m, s) THEN [m EXCEPT !.tt[s] = i] ELSE m
 
 ---------------------------------------------------------------------------
 (* RegistryT::requestImmediate : walk from the destination towards the root *)
